@@ -199,4 +199,6 @@ Definition run_sqcase (c : sqcase) : list Z :=
   let '(s, o) := run_steps (init (sq_len c) (sq_start c) (sq_progs c)) (sq_events c) in
   o ++ [(-1)%Z] ++ map slot_z (consumed s)
     ++ [(-2)%Z] ++ pending_from (N.to_nat (len s) + 1) s (khead s)
-    ++ [(-3)%Z] ++ map nz (sort_n (blocked s)).
+    ++ [(-3)%Z] ++ map nz (sort_n (blocked s))
+    (* what [enter] passes as to_submit afterwards: [unsubmitted_submissions] *)
+    ++ [(-4)%Z; nz (wsub32 (ktail s) (khead s))].
